@@ -64,7 +64,9 @@ def body_lines(syms: list[str], prefix: str) -> list[dict] | None:
     tag = prefix
     prefix = ""
     for i, s in enumerate(syms):
-        c = "c%s%d" % (tag, i) if i % 2 == 0 else " c%s%d" % (tag, i)  # '#c' and '# c' spellings both occur
+        # '#c' and '# c' spellings both occur; beyond position 1 the TEXT of the comment itself starts with '#', with blanks, or
+        # ends with blanks-before-'#' look-alikes ("# # heading", "##x", "#  indented", "# #x"): only the marker and ONE blank go
+        c = ["c%s%d", " c%s%d", " # c%s%d", "#c%s%d", "  c%s%d", " #c%s%d # not a second comment"][i % 2 if i < 2 else i % 6] % (tag, i)
         if s in ("F", "F#"):
             out.append({"stmt": ["field", "saturated uint8", "%sf%d" % (prefix, i)], "comment": c if s == "F#" else None, "src": ["uint8", "%sf%d" % (prefix, i)]})
         elif s == "D":
@@ -249,7 +251,7 @@ def plan(tier: str):
             shards.append({"syms": "small", "maxlen": 2, "minlen": 0, "frame": f, "variants": allv, "service": True})
         for f in frames(tier, "basic"):
             shards.append({"syms": "mid", "maxlen": 2, "minlen": 0, "frame": f, "variants": EOF_VARIANTS, "service": True})
-    shards += H.plan_shards(['nested-revisions'])
+    shards += H.plan_shards(['nested-revisions', 'doc-faults'])
     shards += [{"kind": "scale", "part": p, "parts": 8} for p in range(8)]
     return shards
 
